@@ -315,6 +315,41 @@ func (r *vfRedis) apply(c vfCmd) (interface{}, error) {
 			}
 		}
 		return out, nil
+	case "hkeys", "hvals":
+		_, k := r.find(r.cur, a[0])
+		out := []interface{}{}
+		if k != nil && k.kind == "hash" {
+			for _, p := range k.pairs {
+				if c.name == "hkeys" {
+					out = append(out, p.f)
+				} else {
+					out = append(out, p.v)
+				}
+			}
+		}
+		return out, nil
+	case "hlen":
+		_, k := r.find(r.cur, a[0])
+		if k == nil || k.kind != "hash" {
+			return int64(0), nil
+		}
+		return int64(len(k.pairs)), nil
+	case "hget", "hexists":
+		_, k := r.find(r.cur, a[0])
+		if k != nil && k.kind == "hash" {
+			for _, p := range k.pairs {
+				if len(p.f) == len(a[1]) && string(p.f) == string(a[1]) {
+					if c.name == "hexists" {
+						return int64(1), nil
+					}
+					return p.v, nil
+				}
+			}
+		}
+		if c.name == "hexists" {
+			return int64(0), nil
+		}
+		return nil, nil
 	case "pexpire", "expire":
 		_, k := r.find(r.cur, a[0])
 		if k == nil {
